@@ -225,6 +225,9 @@ func (e *kvElection) Start(ctx context.Context) error {
 	e.ctx, e.cancel = context.WithCancel(ctx)
 	e.stopped = false
 	e.acquiredWhileStopping.Store(false)
+	// A watcher of the previous run may still be winding down (inside a slow store
+	// call): this run needs its own.
+	e.watcherRunning.Store(false)
 
 	if e.connectionMonitor != nil {
 		if err := e.connectionMonitor.Start(ctx); err != nil {
